@@ -803,7 +803,7 @@ pub fn run(args: &Args, out: &mut Out) {
         }
         return;
     }
-    let cases = args.n(24, 600);
+    let cases = args.n(160, 3000);
     for idx in 0..cases {
         let mut rng = Rng::for_case(args.seed, idx);
         let class = CLASSES[(idx % CLASSES.len() as u64) as usize];
